@@ -87,20 +87,25 @@ def run_layout(case):
         T = T.astype(np.uint32)
     if n and m:
         T[0] = [n - 1, 0, n - 1]
-    lay = rnd.choice(["C", "F", "T", "view"])
+    lay = rnd.choice(["C", "F", "T", "view", "BE"])
     Vw, Tw = V, T
     if lay == "F":
         Vw, Tw = np.asfortranarray(V), np.asfortranarray(T)
     elif lay == "T":
         Vw = np.ascontiguousarray(V.T).T
         Tw = np.ascontiguousarray(T.T).T
+    elif lay == "BE":
+        # non-native byte order (arrays decoded from big-endian sources)
+        Vw = V.astype(V.dtype.newbyteorder(">"))
+        Tw = T.astype(T.dtype.newbyteorder(">"))
     elif lay == "view":
         big = np.zeros((n, 6), V.dtype)
         big[:, ::2] = V
         Vw = big[:, ::2]
     obs = {"meshes_written": 0, "reader_inputs": 0, "reader_rejected": 0,
            "reader_accepted": 0, "noncontiguous": int(not Vw.flags["C_CONTIGUOUS"]),
-           "meshes_beyond_65535_vertices": int(n > 65535)}
+           "meshes_beyond_65535_vertices": int(n > 65535),
+           "big_endian_arrays": int(lay == "BE")}
     v = []
     ctx = f"n={n} m={m} vdtype={V.dtype} tdtype={T.dtype} layout={lay}"
     b = io.BytesIO()
@@ -212,11 +217,21 @@ def run_affine(case):
            "triangles_checked": 0}
     v = []
     ctx = f"mode={mode} det={det:.3g} {'3x4' if use34 else '4x4'} seed={case['seed']}"
+    V_before, T_before = V.copy(), T.copy()
     try:
         V2, T2 = M.affine_transform_mesh(V, T, A[:3] if use34 else A)
+        # the caller's arrays are inputs: a second transform of the same mesh (e.g. another
+        # copy of a template) must start from unchanged data
+        V2b, T2b = M.affine_transform_mesh(V, T, A[:3] if use34 else A)
     except Exception as exc:  # noqa: BLE001
         return {"violations": [{"kind": "affine-transform-raised",
                                 "detail": f"{ctx}: {type(exc).__name__}: {exc}"}], "obs": obs}
+    if not (np.array_equal(V, V_before) and np.array_equal(T, T_before)):
+        v.append({"kind": "input-mesh-modified-by-the-transform", "detail": ctx})
+    if not (np.array_equal(np.asarray(V2b), np.asarray(V2))
+            and np.array_equal(np.asarray(T2b), np.asarray(T2))):
+        v.append({"kind": "second-transform-of-the-same-mesh-differs", "detail": ctx})
+    V, T = V_before, T_before
     V2 = np.asarray(V2, dtype=float)
     want = (R @ V.astype(float).T).T + tr
     if V2.shape != want.shape or not np.allclose(V2, want, rtol=1e-6, atol=1e-9 * (1 + abs(
@@ -534,6 +549,7 @@ def gates(obs, tier):
         "triangles_checked": obs.get("triangles_checked", 0) > 1000,
         "gifti_with_transform": obs.get("with_transform", 0) > 5,
         "link_files_checked": obs.get("link_files_checked", 0) > 50,
+        "big_endian_mesh_arrays": obs.get("big_endian_arrays", 0) > 20,
         "segment_labels_beyond_2_53": obs.get("labels_beyond_2_53", 0) > 0,
         "meshes_with_more_than_65535_vertices": obs.get("meshes_beyond_65535_vertices", 0) > 0,
     }
